@@ -273,6 +273,27 @@ def run(ctx):  # noqa: C901, PLR0912, PLR0915
            'table until housekeeping removes it): Renew / GetStatus / a second Unsubscribe for it succeed instead of '
            'being answered with a fault', fi=gs, witness=leaked)
 
+    # the filter is an xs:list: tokens are separated by any white space (split() without separator)
+    ab = repo.func(f'{SB}.ActionBasedSubscription.__init__')
+    splits = [c for c in calls_in(ab.node, 'split') if 'filter_type.text' in unparse(c.func)]
+    ok = bool(splits) and all(not c.args and not c.keywords for c in splits) and \
+        not [c for c in calls_in(ab.node) if call_name(c) in ('partition', 'rpartition', 'splitlines') and 'filter_type' in unparse(c.func)]
+    ctx.ob('C08.R6', 'filter tokenised on any white space', ok,
+           'the Filter text is split on arbitrary white space (xs:list of action URIs)' if ok else
+           'the Filter text is split on one fixed separator: a subscriber that separates the action URIs with new lines or '
+           'tabs (legal for an xs:list) is accepted but matches no report', fi=ab)
+    from .c09 import gathers_isolate_subscribers
+    gathers_isolate_subscribers(ctx, 'C08.R2')
+    # the requested duration is parsed as a decimal number of seconds: the fraction digits are never read as an integer count
+    pd = repo.func('sdc11073.xml_types.isoduration.parse_duration')
+    from engine.deps import Deps
+    dpd = Deps(pd.node)
+    bad = [unparse(c) for c in calls_in(pd.node, 'int') if c.args and any(
+        'fraction' in s_ for s_ in dpd.sources(c.args[0]) | {unparse(c.args[0])})]
+    ctx.ob('C08.R3', 'fraction of a duration is a decimal fraction', not bad,
+           'parse_duration reads seconds and fraction as one decimal number' if not bad else
+           f'parse_duration converts the fraction digits with {bad[0]}: more than six digits (PT1.500000000S) become a '
+           f'microsecond count far above one second - the granted expiry exceeds the requested one', fi=pd)
     # ------------------------------------------------------------------ R5
     for q in (f'{SB}.SubscriptionsManagerBase._end_all_subscriptions',
               'sdc11073.provider.subscriptionmgr_async.BICEPSSubscriptionsManagerBaseAsync._end_all_subscriptions'):
@@ -307,10 +328,18 @@ def run(ctx):  # noqa: C901, PLR0912, PLR0915
         # symbolic expansion: the locals between the attributes and the calls do not matter
         p_sym = [g.symbolic_text(n, c.args[0]) for n, c in posts if c.args]
         c_sym = [g.symbolic_text(n, c.args[0]) for n, c in clients if c.args]
-        endto = '(self._end_to_url or self.notify_to_url)'
-        ok = 'addr_to=self.end_to_address or self.notify_to_address' in src and \
-            'reference_parameters=self.end_to_ref_params or self.notify_ref_params' in src and \
-            p_sym == [f'{endto}.path'] and c_sym == [f'{endto}.netloc']
+        hdr = [(n, c) for n in g.real_nodes() for c in n.calls() if any(k.arg == 'addr_to' for k in c.keywords)]
+        ok = len(hdr) == 1 and len(posts) == 1 and len(clients) == 1 and bool(posts[0][1].args) and bool(clients[0][1].args)
+        if ok:
+            hn, hc = hdr[0]
+            kws = {k.arg: k.value for k in hc.keywords}
+            pa, ca = posts[0][1].args[0], clients[0][1].args[0]
+            ok = 'reference_parameters' in kws and \
+                _first_else_second(g, hn, kws['addr_to'], 'self.end_to_address', 'self.notify_to_address') and \
+                _first_else_second(g, hn, kws['reference_parameters'], 'self.end_to_ref_params', 'self.notify_ref_params') and \
+                isinstance(pa, ast.Attribute) and pa.attr == 'path' and isinstance(ca, ast.Attribute) and ca.attr == 'netloc' and \
+                _first_else_second(g, posts[0][0], pa.value, 'self._end_to_url', 'self.notify_to_url') and \
+                _first_else_second(g, clients[0][0], ca.value, 'self._end_to_url', 'self.notify_to_url')
         ctx.ob('C08.R5', f'{fi.name}: EndTo first', ok,
                f'{fi.cls.name}.{fi.name}: address, reference parameters and connection are EndTo if given, else NotifyTo',
                fi=fi)
@@ -353,6 +382,21 @@ def run(ctx):  # noqa: C901, PLR0912, PLR0915
 
 
 # ---------------------------------------------------------------------- self-test seeds
+def _first_else_second(g, n, expr, first, second) -> bool:
+    """expr at n is `first` when first is given (truthy / not None) and `second` otherwise - whether written `first or second`,
+    as a conditional expression, as if/else on a local or through a helper that was expanded."""
+    seen = set()
+    for facts, leaf in g.value_cases(n, expr):
+        txt = unparse(leaf)
+        if txt == first and ((first, True) in facts or (f'{first} is None', False) in facts):
+            seen.add('first')
+        elif txt == second and ((first, False) in facts or (f'{first} is None', True) in facts):
+            seen.add('second')
+        else:
+            return False
+    return seen == {'first', 'second'}
+
+
 from selftest import seed  # noqa: E402
 
 _B = 'src/sdc11073/provider/subscriptionmgr_base.py'
